@@ -15,3 +15,5 @@ package keeper
 //@ requires [msg_present] msg != nil
 //@ modifies G_*
 //@ ensures [registered_spec_cannot_be_replaced] old(has(registry.SpecRegistry, lower(msg.QueryType))) ==> err != nil && nothing_written()
+//@ ensures [only_the_checked_query_type_is_written] forall t string :: t != lower(msg.QueryType) ==> (has(registry.SpecRegistry, t) <==> old(has(registry.SpecRegistry, t))) && registry.SpecRegistry[t] == old(registry.SpecRegistry[t])
+//@ ensures [spec_is_registered_for_the_sender] err == nil ==> has(registry.SpecRegistry, lower(msg.QueryType)) && registry.SpecRegistry[lower(msg.QueryType)].Registrar == msg.Registrar
